@@ -448,6 +448,16 @@ func (fc *FnCtx) toIdx(v Val) string {
 	if v.K != nil && (isUntyped(v.Ty) || v.T == "") {
 		return fc.constVal(v.K, tInt).T
 	}
+	if !isInteger(v.Ty) && !fc.idxBV() {
+		// ghost arrays may be indexed by references (pointers are Int)
+		switch v.Ty.Underlying().(type) {
+		case *types.Pointer, *types.Map, *types.Chan:
+			return v.T
+		}
+		if isNilVal(v) {
+			return "0"
+		}
+	}
 	return fc.convert(v, tInt, token.NoPos).T
 }
 
